@@ -88,7 +88,8 @@ FUNS   == {"+", "-", "*", "=", "<", ">", "<=", ">=", "not", "list", "cons", "car
            "macroexpand", "macroexpand-1", "eval", "gensym", "equal?",
            "map", "foldl", "foldr", "select", "reject", "any?", "all?", "nth", "second", "append", "concat", "reverse", "empty?",
            "mod", "max", "min", "list?", "int?", "symbol?", "true?", "float?", "number?",
-           "vector", "vector?", "array?", "aref", "string?", "sorted-map", "sorted-map?", "get", "key?", "keys", "assoc", "dissoc"}
+           "vector", "vector?", "array?", "aref", "string?", "sorted-map", "sorted-map?", "get", "key?", "keys", "assoc", "dissoc",
+           "to-string", "string="}
 BuiltinKind(name) == IF name \in OPS THEN "op" ELSE IF name \in MACROS THEN "macro" ELSE "fun"
 BuiltinFID(v) == IF v.p = "op" THEN "<special-op ``" \o v.s \o "''>"
                  ELSE IF v.p = "macro" THEN "<builtin-macro ``" \o v.s \o "''>"
@@ -101,7 +102,8 @@ Arity(name) ==
     [] name = "gensym" -> <<0, 0>>
     [] name \in {"second", "empty?", "list?", "int?", "symbol?", "true?", "float?", "number?", "vector?", "array?", "string?", "sorted-map?", "keys"} -> <<1, 1>>
     [] name \in {"vector", "sorted-map"} -> <<0, -1>>
-    [] name \in {"get", "key?", "dissoc"} -> <<2, 2>>
+    [] name \in {"get", "key?", "dissoc", "string="} -> <<2, 2>>
+    [] name = "to-string" -> <<1, 1>>
     [] name = "assoc" -> <<3, 3>>
     [] name = "aref" -> <<1, -1>>
     [] name \in {"nth", "mod", "any?", "all?", "reverse"} -> <<2, 2>>
@@ -442,6 +444,8 @@ RECURSIVE MapFromArgs(_, _, _)
 MapFromArgs(a, j, mp) == IF j > Len(a) THEN mp ELSE MapFromArgs(a, j + 2, MapPut(mp, a[j], a[j + 1]))
 KnownKeys(a) == \A j \in 1..Len(a) : (j % 2 = 1) => (IsKey(a[j]) /\ KeyRank(a[j].s) < 100)
 
+RECURSIVE JoinStr(_)
+JoinStr(a) == IF Len(a) = 0 THEN "" ELSE (IF a[1].t = "str" THEN a[1].s ELSE "") \o JoinStr(Rest(a))
 \* a sequence type specifier ('list or 'vector) and the sequence it makes of cells (concat gives () for no cells)
 SeqSpec(v) == v.t = "sym" /\ v.p = "" /\ v.s \in {"list", "vector"}
 MakeSeq(spec, cells, nilIfEmpty) == IF spec.s = "vector" THEN VVec(cells)
@@ -472,7 +476,12 @@ PureBuiltin(name, a) ==
     [] name = "first" -> IF ~IsSeq(a[1]) THEN bad ELSE IF Len(a[1].c) = 0 THEN good(VNil) ELSE good(a[1].c[1])
     [] name = "cdr" -> IF a[1].t # "list" THEN bad ELSE IF Len(a[1].c) <= 1 THEN good(VNil) ELSE good(VQList(Rest(a[1].c)))
     [] name = "rest" -> IF ~IsSeq(a[1]) THEN bad ELSE IF Len(a[1].c) <= 1 THEN good(VNil) ELSE good(VQList(Rest(a[1].c)))
-    [] name = "length" -> IF a[1].t \in {"list", "vec", "map"} THEN good(VInt(Len(a[1].c))) ELSE bad
+    [] name = "length" -> IF a[1].t \in {"list", "vec", "map"} THEN good(VInt(Len(a[1].c))) ELSE IF a[1].t = "str" THEN good(VInt(Len(a[1].s))) ELSE bad
+    [] name = "to-string" -> CASE a[1].t = "int" -> good(VStr(ToString(a[1].n)))
+                               [] a[1].t = "str" -> good(a[1])
+                               [] a[1].t = "sym" /\ a[1].p = "" -> good(VStr(a[1].s))
+                               [] OTHER -> bad
+    [] name = "string=" -> IF a[1].t = "str" /\ a[2].t = "str" THEN good(VBool(a[1].s = a[2].s)) ELSE bad
     [] name = "vector" -> good(VVec(a))
     [] name \in {"vector?", "array?"} -> good(VBool(a[1].t = "vec"))
     [] name = "string?" -> good(VBool(a[1].t = "str"))
@@ -502,7 +511,8 @@ PureBuiltin(name, a) ==
     [] name = "min" -> IF IntArgs(a) THEN good(VInt(0 - SeqMax([j \in 1..n |-> VInt(0 - a[j].n)]))) ELSE bad
     [] name = "reverse" -> IF ~SeqSpec(a[1]) \/ ~IsSeq(a[2]) THEN bad
                            ELSE good(MakeSeq(a[1], [j \in 1..Len(a[2].c) |-> a[2].c[Len(a[2].c) + 1 - j]], FALSE))
-    [] name = "concat" -> IF ~SeqSpec(a[1]) \/ (\E j \in 2..n : ~IsSeq(a[j])) THEN bad
+    [] name = "concat" -> IF a[1].t = "sym" /\ a[1].p = "" /\ a[1].s = "string" /\ (\A j \in 2..n : a[j].t = "str" \/ IsNilV(a[j])) THEN good(VStr(JoinStr(Rest(a))))       \* (() is the empty byte sequence)
+                          ELSE IF ~SeqSpec(a[1]) \/ (\E j \in 2..n : ~IsSeq(a[j])) THEN bad
                           ELSE good(MakeSeq(a[1], FlatCells(Rest(a)), TRUE))
     [] name = "append" -> IF ~SeqSpec(a[1]) \/ ~IsSeq(a[2]) THEN bad
                           ELSE good(MakeSeq(a[1], a[2].c \o SubSeq(a, 3, n), FALSE))
